@@ -150,6 +150,32 @@ func Sources(fn *ssa.Function, v ssa.Value) []ssa.Value {
 				}
 			}
 			add(v)
+		case *ssa.FieldAddr:
+			// the address of a field (`m.lim.add()` passes &m.lim as the receiver): the object decides
+			base := ssa.Value(x)
+			for {
+				f2, ok := base.(*ssa.FieldAddr)
+				if !ok {
+					break
+				}
+				base = f2.X
+			}
+			if u2, ok := base.(*ssa.UnOp); ok && u2.Op == token.MUL {
+				if a := ResolveAlloc(u2.X); a != nil {
+					if st := StoresTo(a); len(st) == 1 {
+						base = st[0].Val
+					}
+				}
+			}
+			if IsLocalRoot(base) {
+				add(base)
+				return
+			}
+			if p, ok := base.(*ssa.Parameter); ok {
+				add(p)
+				return
+			}
+			add(v)
 		default:
 			add(v)
 		}
